@@ -363,6 +363,19 @@ fn main() {
     // `--runs` is accepted for protocol compatibility; the workload is definitions x draws
     let _ = args.num("runs", 0);
 
+    if let Some(path) = args.get("digest") {
+        // cross-build comparisons (run by ./check): print the digests of generate() / strip_attributes() of the definition
+        // in a replay-like file under the recorded (or fixed) keys, as computed by THIS build
+        let v = read_json(path);
+        let Some(src) = v.pointer("/definition/source").and_then(|s| s.as_str()) else {
+            eprintln!("hash-sim: {path} holds no definition");
+            std::process::exit(2)
+        };
+        let o = simulated_thread(src, HISTORY_KEYS);
+        let g = render(&o.gen);
+        println!("{}", json!({"generate_fnv": format!("{:016x}", fnv1a(g.as_bytes())), "strip_fnv": format!("{:016x}", fnv1a(render(&o.strip).as_bytes())), "generate_len": g.len(), "build": build_info!()}));
+        return;
+    }
     if let Some(path) = args.get("emit-crate") {
         // derive leg (run by ./check): definitions that compile as they stand and that the code generator accepts
         let mut enums = Vec::new();
@@ -376,6 +389,14 @@ fn main() {
         return;
     }
     let defs = all_definitions(&repo, seed, n_random);
+    if let Some(id) = args.get("dump-json") {
+        // the source text of one definition, for replay files written by ./check
+        match (defs.iter().find(|d| d.id == id), &out_path) {
+            (Some(d), Some(p)) => write_json(p, &json!({"id": d.id, "origin": d.origin, "source": d.source})),
+            _ => { eprintln!("hash-sim: --dump-json needs a known definition id and --out"); std::process::exit(2) }
+        }
+        return;
+    }
     if let Some(id) = args.get("dump") {
         // debugging aid: print one definition and the head of what generate() makes of it
         for d in defs.iter().filter(|d| d.id == id) {
